@@ -4,6 +4,8 @@ REPO    ?= /repo
 FLAVOUR ?= fast
 BUILD   ?= build/$(FLAVOUR)
 CXX     ?= g++
+override BUILD := $(abspath $(BUILD))
+override REPO  := $(abspath $(REPO))
 GROUPS  ?= $(sort $(foreach f,$(wildcard subjects/*.cpp),$(firstword $(subst _, ,$(notdir $(f))))))
 
 BASEFLAGS = -std=gnu++11 -g -DNDEBUG -mcx16 -fno-strict-aliasing -DKHIZMAX_LIBCDS_VERIF -Iinclude -I$(REPO) -pthread -MMD -MP -w
